@@ -242,10 +242,10 @@ func (g *commonGen) codeFor(w *World, kind string, a, b int) (*SecretRef, map[st
 	bad := g.r.Intn(100) < g.p.BadSecret
 	isTOTP := strings.HasPrefix(kind, "totp_")
 	if !bad {
-		if kind == "totp_confirm" {
+		if kind == "totp_confirm" && !g.r.Chance(1, 8) {
 			return &SecretRef{Kind: "totp_pending", A: b}, nil
 		}
-		if g.r.Chance(1, 6) && kind != "sms_confirm" {
+		if g.r.Chance(1, 6) || kind == "totp_confirm" {
 			return &SecretRef{Kind: "recovery", A: a, Idx: -1 - g.r.Intn(3)}, nil
 		}
 		if isTOTP {
@@ -264,9 +264,11 @@ func (g *commonGen) codeFor(w *World, kind string, a, b int) (*SecretRef, map[st
 		return &SecretRef{Kind: "empty"}, nil
 	}
 	o := g.otherAcct(w, max(a, 0))
-	switch g.r.Intn(10) {
+	switch g.r.Intn(11) {
 	case 0:
 		return &SecretRef{Kind: "empty"}, nil
+	case 10: // the right TOTP code wrapped in white space
+		return &SecretRef{Kind: "totp", A: a, Mut: []string{"suffix: ", "prefix: ", "suffix:\t", "suffix:\n", "prefix:\u00a0"}[g.r.Intn(5)]}, nil
 	case 1:
 		return &SecretRef{Kind: "literal", Lit: fmt.Sprintf("%06d", g.r.Intn(1000000))}, nil
 	case 2: // another account's TOTP code
@@ -291,10 +293,27 @@ func (g *commonGen) codeFor(w *World, kind string, a, b int) (*SecretRef, map[st
 	}
 }
 
+// logoutMethods are the methods a logout request is tried with.
+var logoutMethods = []string{"GET", "POST", "DELETE", "HEAD", "PUT", "OPTIONS"}
+
 var goodPasswords = []string{"N3w-Passw0rd!", "Zebra#4Crossing", "tr0ub4dor&3X", "Summer-2031-rain", "Qw!7zzzzzzzz"}
 
+// newPasswordFor is newPassword with, sometimes, the password the account
+// already has (a change to the identical value is still a change).
+func (g *commonGen) newPasswordFor(a int) *SecretRef {
+	if a >= 0 && g.r.Chance(1, 8) {
+		return &SecretRef{Kind: "password", A: a}
+	}
+	return g.newPassword()
+}
+
 func (g *commonGen) newPassword() *SecretRef {
-	switch g.r.Intn(10) {
+	switch g.r.Intn(12) {
+	case 10:
+		// white space is part of a password
+		return &SecretRef{Kind: "literal", Lit: []string{"Trailing-space1! ", " Leading-space1!", "Tab-at-the-end1!\t", "Newline-end-1!Aa\n", "In side-1!Aa", "  Both-ends-1!Aa  "}[g.r.Intn(6)]}
+	case 11:
+		return &SecretRef{Kind: "literal", Lit: strings.Repeat("Aa1!", 18) + "Z"} // 73 bytes
 	case 0:
 		return &SecretRef{Kind: "literal", Lit: "short1!"}
 	case 1:
@@ -395,7 +414,7 @@ func (g *commonGen) fill(w *World, kind string, b int) Step {
 		st.A = sessAcct(w, b)
 	case "logout":
 		if g.r.Chance(1, 6) {
-			st.Str = map[string]string{"method": []string{"GET", "POST", "DELETE"}[g.r.Intn(3)]}
+			st.Str = map[string]string{"method": logoutMethods[g.r.Intn(len(logoutMethods))]}
 		}
 	case "register":
 		n := len(w.Accts)
@@ -426,7 +445,7 @@ func (g *commonGen) fill(w *World, kind string, b int) Step {
 	case "recover_end", "recover_end_get":
 		st.A = g.pickAcct(w, b)
 		st.Sec = g.secretFor(w, kind, st.A, b)
-		st.Sec2 = g.newPassword()
+		st.Sec2 = g.newPasswordFor(st.A)
 	case "confirm":
 		st.A = g.pickAcct(w, b)
 		st.Sec = g.secretFor(w, kind, st.A, b)
@@ -440,7 +459,7 @@ func (g *commonGen) fill(w *World, kind string, b int) Step {
 		if st.A < 0 {
 			st.A = 0
 		}
-		st.Sec = g.newPassword()
+		st.Sec = g.newPasswordFor(st.A)
 	case "totp_confirm", "totp_remove", "totp_validate", "sms_confirm", "sms_remove", "sms_validate":
 		st.A = sessAcct(w, b)
 		if st.A < 0 {
@@ -541,7 +560,7 @@ func (g *commonGen) fill(w *World, kind string, b int) Step {
 			st.Sec = &SecretRef{Kind: "forged_rm", A: g.pickAcct(w, b), Idx: g.r.Intn(1000)}
 		}
 	case "app_session_put":
-		st.Str = map[string]string{"key": []string{"app_theme", "app_cart", "app_other"}[g.r.Intn(3)], "val": fmt.Sprintf("v%d", g.r.Intn(100))}
+		st.Str = map[string]string{"key": appKeys[g.r.Intn(len(appKeys))], "val": fmt.Sprintf("v%d", g.r.Intn(100))}
 	}
 	return st
 }
